@@ -339,7 +339,9 @@ theorem helperGenerics_shaped_it {g : T} (nkeys : Nat) (hs : genericsShaped_it g
 
 /-! ### the helper impls of trait mode keep their members' items -/
 
-/-- the member with another trait reference: everything but child 4 is the member's -/
+/-- the member with another trait reference: everything but child 4 is the member's; the new trait reference is the SINGLE
+    segment `_<x><idx><row ++ old arguments>` (`x` the identifier of the member's LAST trait-path segment) with no leading
+    `::` and none of the member's leading segments (disjoint.rs: `*trait_ = path.clone().into()`) -/
 theorem helperImpl_trait_inv_it {idx : Nat} {idents : List (BKey × String)} {row : List (Option T)} {member h : T}
     (hh : helperImpl idx none idents row member = some h) :
     ∃ a d u g b p s items x args na,
@@ -349,7 +351,7 @@ theorem helperImpl_trait_inv_it {idx : Nat} {idents : List (BKey × String)} {ro
        (∃ c2 old, args = .node "PathArguments::AngleBracketed" [] [c2, .node "List" [] old] ∧
           na = .node "PathArguments::AngleBracketed" [] [c2, tList (rowArgs idents row ++ old)])) ∧
       h = .node "ItemImpl" [] [a, d, u, g,
-        tSome (.node "Tuple" [] [tNone, pathNode (pathLead p) (initSegsOf p ++ [.node "PathSegment" [] [tIdent (genIdentStr x idx), na]])]),
+        tSome (.node "Tuple" [] [tNone, pathNode noLead [.node "PathSegment" [] [tIdent (genIdentStr x idx), na]]]),
         s, items] := by
   unfold helperImpl at hh
   simp only at hh
@@ -722,18 +724,20 @@ theorem payloads_length_of_wf_it {g : T × ABG × List Blk} (hwf : expandWF g = 
   exact payloads_length g.2.1 _ hne (fun kr hkr => hal kr hkr)
 
 /-- what a helper impl of trait mode keeps of its member (everything but the trait reference, child 4) and what its
-    trait reference is: the member's trait path with the last segment renamed to `_<name><idx>` and the member's row
-    prepended to that segment's arguments -/
+    trait reference is: the single segment `_<name><idx>` (`name` the identifier of the LAST segment of the member's trait
+    path), with no leading `::` and no leading segments whatever qualifiers the member's path has, and with the member's
+    row prepended to the last segment's arguments -/
 theorem helperImpl_trait_read_it {idx : Nat} {idents : List (BKey × String)} {row : List (Option T)} {member h : T}
     (hh : helperImpl idx none idents row member = some h) :
     (∀ j, j ≠ 4 → kid h j = kid member j) ∧ implItems h = implItems member ∧
     ∃ mp hp, implTraitPath member = some mp ∧ traitPathOf h = some hp ∧ implTraitPath h = some hp ∧
-      pathLead hp = pathLead mp ∧ initSegsOf hp = initSegsOf mp ∧
-      (∃ x, lastSegIdentOf mp = some x ∧ lastSegIdentOf hp = some (genIdentStr x idx)) ∧
+      pathLead hp = noLead ∧ initSegsOf hp = [] ∧
+      (∃ x, lastSegIdentOf mp = some x ∧ lastSegIdentOf hp = some (genIdentStr x idx) ∧
+        ∃ na, hp = pathNode noLead [.node "PathSegment" [] [tIdent (genIdentStr x idx), na]]) ∧
       XOK.segArgs (XOK.lastSeg hp) = rowArgs idents row ++ XOK.segArgs (XOK.lastSeg mp) := by
   obtain ⟨a, d, u, g, b, p, s, items, x, args, na, rfl, hl, hna, rfl⟩ := helperImpl_trait_inv_it hh
   obtain ⟨lc, hpe⟩ := lastSegOf_inv hl
-  refine ⟨?_, ?_, p, _, rfl, by simp [traitPathOf, kid, kids, kind, tSome], rfl, ?_, ?_, ⟨x, ?_, ?_⟩, ?_⟩
+  refine ⟨?_, ?_, p, _, rfl, by simp [traitPathOf, kid, kids, kind, tSome], rfl, ?_, ?_, ⟨x, ?_, ?_, na, rfl⟩, ?_⟩
   · intro j hj
     match j with
     | 0 | 1 | 2 | 3 | 5 | 6 => rfl
@@ -749,12 +753,15 @@ theorem helperImpl_trait_read_it {idx : Nat} {idents : List (BKey × String)} {r
       · next heq => cases heq; exact absurd rfl (hne _ _ _ _ _ _ _)
       · rfl
   · rw [pathLead_pathNode_inh]
-  · rw [initSegsOf_pathNode_inh]
+  · exact initSegsOf_pathNode_inh noLead [] _
   · simp [lastSegIdentOf, hl]
-  · simp [lastSegIdentOf, lastSegOf_pathNode_inh, tIdent]
+  · have := lastSegOf_pathNode_inh noLead [] (.node "PathSegment" [] [tIdent (genIdentStr x idx), na])
+    rw [List.nil_append] at this
+    rw [lastSegIdentOf, this]
+    rfl
   · have hmp : XOK.lastSeg p = .node "PathSegment" [] [.node "Ident" [x] [], args] := by
       rw [hpe]; simp [XOK.lastSeg, segsOf, kid, kids, lastOf]
-    have hhp : XOK.lastSeg (pathNode (pathLead p) (initSegsOf p ++ [.node "PathSegment" [] [tIdent (genIdentStr x idx), na]])) =
+    have hhp : XOK.lastSeg (pathNode noLead [.node "PathSegment" [] [tIdent (genIdentStr x idx), na]]) =
         .node "PathSegment" [] [tIdent (genIdentStr x idx), na] := by
       simp [XOK.lastSeg, segsOf, pathNode, tList, kid, kids, lastOf]
     rw [hmp, hhp]
